@@ -29,6 +29,29 @@ T = TAGS
 R = z3.RealSort()
 RND = z3.Function("rnd", sym.I, R)            # float(int) when it does not overflow
 INT_OF_STR = z3.Function("int_of_str", sym.ArrS, sym.I, sym.I)
+IS_INT_STR = z3.Function("is_int_str", sym.ArrS, sym.I, sym.B)   # int(s) does not raise
+IS_FLOAT_STR = z3.Function("is_float_str", sym.ArrS, sym.I, sym.B)   # float(s) does not raise
+FCLS_OF_STR = z3.Function("fcls_of_str", sym.ArrS, sym.I, sym.I)
+FVAL_OF_STR = z3.Function("fval_of_str", sym.ArrS, sym.I, z3.RealSort())
+
+
+def canon_str(it, s):
+    """(array, length) of a string with the content starting at index 0."""
+    if isinstance(s, VDyn):     # meaningful when the value is a str
+        arr, n = sym.as_sarr(s.t), sym.as_slen(s.t)
+        it.sadd(z3.Implies(n == 0, z3.Not(IS_INT_STR(arr, n))))
+        return arr, n
+    arr, n = _canon_str(it, s)
+    it.sadd(z3.Implies(n == 0, z3.Not(IS_INT_STR(arr, n))))    # int('') raises ValueError
+    return arr, n
+
+
+def _canon_str(it, s):
+    vv = sym.as_view(s)
+    if z3.eq(z3.simplify(vv.lo), z3.IntVal(0)):
+        return vv.arr, vv.hi
+    j = z3.Int(it.namer.fresh("j"))
+    return z3.Lambda([j], z3.Select(vv.arr, vv.lo + j)), z3.simplify(vv.hi - vv.lo)
 TWO53 = 2 ** 53
 ISINST = z3.Function("isinst", sym.ValS, sym.I, sym.B)
 TRUTHY = z3.Function("truthy_other", sym.ValS, sym.B)
@@ -335,12 +358,11 @@ def install(w):
             it.guard(v.cls == 0, OverflowError, node, "SAFE-Value")
             return VInt(trunc(v.val))
         if isinstance(v, VStr):
-            use("int(str): ValueError or an int (no further claim)")
-            it.note_safe("SAFE-Value", _src(node), getattr(node, "lineno", 0))
-            if it.choose(2, "int(str)") == 1:
-                it.throw(ValueError, node, "SAFE-Value")
-            vv = sym.as_view(v)
-            return VInt(INT_OF_STR(vv.arr, vv.length()))
+            use("int(str): a function of the text - ValueError exactly when is_int_str(text) is "
+                "false, else int_of_str(text) (both uninterpreted: no claim about which texts parse)")
+            arr, n = canon_str(it, v)
+            it.guard(IS_INT_STR(arr, n), ValueError, node, "SAFE-Value")
+            return VInt(INT_OF_STR(arr, n))
         if isinstance(v, VDyn):
             t = v.t
             tg = sym.tag(t)
@@ -384,11 +406,13 @@ def install(w):
             it.sadd(z3.Implies(i < -TWO53, r <= -TWO53))
             return VFloat(z3.IntVal(0), r)
         if isinstance(v, VStr):
-            use("float(str): ValueError or some float (any class)")
-            it.note_safe("SAFE-Value", _src(node), getattr(node, "lineno", 0))
-            if it.choose(2, "float(str)") == 1:
-                it.throw(ValueError, node, "SAFE-Value")
-            return w.fresh_float(it, "float")
+            use("float(str): a function of the text - ValueError exactly when is_float_str(text) is "
+                "false, else some float of any class (finite, nan, +-inf: float('1e999') is inf)")
+            arr, n = canon_str(it, v)
+            it.guard(IS_FLOAT_STR(arr, n), ValueError, node, "SAFE-Value")
+            c = FCLS_OF_STR(arr, n)
+            it.sadd(z3.And(0 <= c, c <= 3))
+            return VFloat(c, FVAL_OF_STR(arr, n))
         if isinstance(v, VDyn):
             t = v.t
             tg = sym.tag(t)
@@ -717,6 +741,14 @@ def install(w):
         "num_eq": p(lambda it, a, b: num_eq(numeric(it, a), numeric(it, b))),
         "same": p(lambda it, a, b: same_val(it, a, b)),
         "truthy": lambda it, v: VBool(it.truth(v)),
+        "is_float_str": lambda it, s_: VBool(IS_FLOAT_STR(*canon_str(it, s_))),
+        "float_str_finite": lambda it, s_: VBool(FCLS_OF_STR(*canon_str(it, s_)) == 0),
+        "float_of_str_eq": lambda it, r, s_: VBool(z3.And(
+            sym.tag(as_dyn_t(it, r)) == T["float"],
+            sym.as_fcls(as_dyn_t(it, r)) == FCLS_OF_STR(*canon_str(it, s_)),
+            sym.as_fval(as_dyn_t(it, r)) == FVAL_OF_STR(*canon_str(it, s_)))),
+        "is_int_str": lambda it, s_: VBool(IS_INT_STR(*canon_str(it, s_))),
+        "int_of_str": lambda it, s_: VInt(INT_OF_STR(*canon_str(it, s_))),
         "is_tuple": p(lambda it, v: sym.tag(as_dyn_t(it, v)) == T["tuple"]),
         "is_sized": p(lambda it, v: sor(*[sym.tag(as_dyn_t(it, v)) == T[k] for k in ("tuple", "list")])),
         "instance_of": p(lambda it, v, name: z3.And(
